@@ -60,6 +60,15 @@ def _defines(cls_key, name):
 
 def register(w, c):
     key = c["key"]
+    if "cases" in c:
+        # the case analysis used at call sites must itself be proved of the callee
+        ens = list(c.get("ensures", []))
+        for cond, term in c["cases"]:
+            t = f"implies({cond}, same(result, {term}))"
+            if t not in ens:
+                ens.append(t)
+        ens.append(" or ".join(f"({cond})" for cond, _ in c["cases"]))
+        c["ensures"] = ens
     w.contracts[key] = c
     simple = key.split("::")[1]
     if "." not in simple:
@@ -70,6 +79,9 @@ def register(w, c):
 
 def register_class(w, c):
     w.classes[c["key"]] = c
+    if c.get("with_model") == "noop":
+        # a context manager whose __enter__/__exit__ have no effect visible in the contracts
+        w.with_models[c["key"]] = (lambda ex, mgr, line: None, lambda ex, mgr, line: None)
     w.class_by_name[c["key"].split("::")[1].split(".")[-1]] = c["key"]
 
 
@@ -213,12 +225,28 @@ def apply_contract(ex, key, self_obj, args, kw, line):
             self_obj.attrs[attr] = eval_spec_expr(ex, expr, env)
     env = contract_env(ex, c, bound, self_obj, old_self, result)
     env.update(ghost)
-    for e_ in c.get("ensures", []):
-        ex.assume(ex.to_bool(eval_spec_expr(ex, e_, env)))
+    ex.assuming = getattr(ex, "assuming", 0) + 1
+    try:
+        for e_ in c.get("ensures", []):
+            ex.assume(ex.to_bool(eval_spec_expr(ex, e_, env)))
+    finally:
+        ex.assuming -= 1
     if "result_is" in c:
         v = eval_spec_expr(ex, c["result_is"], env)
         set_fresh(v, fr)
         return v
+    if "cases" in c:
+        # the postcondition as an explicit case analysis (each case is one of the proved ensures
+        # clauses `implies(cond, same(result, term))`): the caller's path forks on the condition
+        # and continues with the concrete term
+        for cond, term in c["cases"]:
+            if ex.branch(ex.to_bool(eval_spec_expr(ex, cond, env))):
+                v = eval_spec_expr(ex, term, env)
+                if isinstance(v, Z):
+                    ex.assume(ex.to_py(result) == ex.to_py(v)) if False else None
+                set_fresh(v, "no")
+                return v
+        raise symex.PathPruned()
     return result
 
 
@@ -289,14 +317,39 @@ def visit_one(ex, obj, cc, x, line):
     for attr, expr in cc.get("visit_effects", {}).items():
         obj.attrs[attr] = eval_spec_expr(ex, expr, env)
     env["result"] = r
-    for e_ in cc.get("visit_ensures", []):
-        ex.assume(ex.to_bool(eval_spec_expr(ex, e_, env)))
+    ex.assuming = getattr(ex, "assuming", 0) + 1
+    try:
+        for e_ in cc.get("visit_ensures", []):
+            ex.assume(ex.to_bool(eval_spec_expr(ex, e_, env)))
+    finally:
+        ex.assuming -= 1
     r.fresh = "no"
     return r
 
 
 def visit_list(ex, obj, cc, seq, line):
     """[self.visit(a) for a in seq] for a functional visitor."""
+    if "visit_fn" not in cc and cc.get("visit_list_ensures") is not None:
+        # a visitor given by a hypothesis only (no spec function): the visited list is a fresh
+        # list constrained by the list form of that hypothesis
+        envl = dict(ex.closure_env)
+        envl.update({"nodes": seq, "self": obj})
+        for i, r in enumerate(cc.get("visit_requires_list", [])):
+            ex.oblige("pre", f"visit(list):requires[{i}]",
+                      ex.to_bool(eval_spec_expr(ex, r, envl)), line, note=r)
+        for exc, cond in cc.get("visit_raises", {}).items():
+            if ex.ctx.choose(2, [True, True]) == 1:
+                raise RaiseSig(exc, line)
+        res = Z(ex.fresh("visited_list", ex.S.PyList), fresh="shallow",
+                origin="[self.visit(a) for a in …]")
+        envl["result"] = res
+        ex.assuming = getattr(ex, "assuming", 0) + 1
+        try:
+            for e_ in cc["visit_list_ensures"]:
+                ex.assume(ex.to_bool(eval_spec_expr(ex, e_, envl)))
+        finally:
+            ex.assuming -= 1
+        return res
     if "visit_fn" not in cc or cc.get("visit_effects"):
         raise Unsupported("comprehension of self.visit for a non-functional/stateful visitor")
     env = dict(ex.closure_env)
@@ -410,6 +463,11 @@ def verify_function(w, key):
     res.sha = sha
     res.dropped = dropped_constructs(fnode)
     is_method = bool(c.get("self"))
+    try:
+        dispatch_obligations(w, key, c, fnode, tree, res)
+    except Unsupported as u:
+        res.unsupported = f"dispatch: {u}"
+        return res
     worklist = [[]]
     seen_traces = 0
     max_paths = c.get("max_paths", 400)
@@ -433,10 +491,13 @@ def verify_function(w, key):
         except symex.PathPruned as pp:
             # a path that ends at the bottom of a loop body (invariant re-established) is a
             # complete path: its obligations count; an infeasible path has none worth keeping
+            # Obligations recorded before a path was abandoned are kept in every case: a path
+            # typically becomes infeasible BECAUSE a failed obligation was assumed to continue
+            # (e.g. an index that is out of range on every input).
             from .loops import LoopBodyEnd
             if isinstance(pp, LoopBodyEnd):
                 res.paths += 1
-                res.obligations.extend(ctx.obligations)
+            res.obligations.extend(ctx.obligations)
             continue
         res.paths += 1
         res.obligations.extend(ctx.obligations)
@@ -445,6 +506,9 @@ def verify_function(w, key):
     for ob in res.obligations:
         if "fuel" in c:
             ob.fuel = c["fuel"]
+        if "facts_fuel" in c:
+            ob.facts_fuel = c["facts_fuel"]
+            ob.fuel = max(getattr(ob, "fuel", 3), c["facts_fuel"])
         if "allclass" in c:
             ob.allclass = c["allclass"]
     uniq = {}
@@ -453,6 +517,46 @@ def verify_function(w, key):
         uniq.setdefault(k, ob)
     res.obligations = list(uniq.values())
     return res
+
+
+def _visitor_hypothesis(w, c):
+    """(class contract, name of the node parameter) if `c` is a visit_<NodeClass> method of a
+    visitor specified by a hypothesis (visit_ensures, no visit_fn)."""
+    if not c.get("self") or c.get("trusted"):
+        return None
+    cc = w.classes.get(c["self"])
+    name = c["key"].split(".")[-1]
+    if cc is None or "visit_fn" in cc or not cc.get("visit_ensures"):
+        return None
+    if not name.startswith("visit_") or name[6:] not in w.S.classes or ".super." in c["key"]:
+        return None
+    params = list(c.get("params", {}).keys())
+    return (cc, params[0]) if params else None
+
+
+def dispatch_obligations(w, key, c, fnode, tree, res):
+    """ast.NodeVisitor.visit dispatches a node of class X to visit_X: under the hypothesis'
+    precondition and isinstance(node, X) the method's own requires must hold."""
+    hyp = _visitor_hypothesis(w, c)
+    if hyp is None:
+        return
+    cc, pname = hyp
+    cls = c["key"].split(".")[-1][6:]
+    ctx = symex.Ctx(w, [], [[]])
+    ex = symex.Exec(w, key, fnode, c, tree)
+    ex.ctx = ctx
+    node = sym_for(ex, pname, "py")
+    slf = make_obj(ex, c["self"])
+    ex.assume(w.S.rec(cls)(node.t))
+    ex.learn(w.S.rec(cls)(node.t))
+    env = {"node": node, "self": slf, pname: node}
+    for r in cc.get("visit_requires", []):
+        ex.assume(ex.to_bool(eval_spec_expr(ex, r, env)))
+    for i, r in enumerate(c.get("requires", [])):
+        ex.oblige("pre", f"dispatch:requires[{i}]", ex.to_bool(eval_spec_expr(ex, r, env)),
+                  getattr(fnode, "lineno", None),
+                  note=f"visit() dispatches every {cls} here: {r}")
+    res.obligations.extend(ctx.obligations)
 
 
 def run_one_path(ex, c, fnode, is_method, res):
@@ -519,6 +623,15 @@ def run_one_path(ex, c, fnode, is_method, res):
     for i, e_ in enumerate(c.get("ensures", [])):
         g = ex.to_bool(eval_spec_expr(ex, e_, cenv))
         ex.oblige("post", f"ensures[{i}]", g, line_end, note=e_)
+    hyp = _visitor_hypothesis(ex.w, c)
+    if hyp is not None:
+        # induction step: this visit_<Class> method re-establishes the class-level hypothesis
+        cc, pname = hyp
+        henv = dict(cenv)
+        henv["node"] = bound[pname]
+        for i, e_ in enumerate(cc.get("visit_ensures", [])):
+            g = ex.to_bool(eval_spec_expr(ex, e_, henv))
+            ex.oblige("post", f"hypothesis[{i}]", g, line_end, note=f"visitor hypothesis: {e_}")
     want_fresh = c.get("fresh")
     if want_fresh in ("node", "shallow", "deep") and isinstance(result, Z):
         order = {"no": 0, "node": 1, "shallow": 2, "deep": 3}
